@@ -134,11 +134,11 @@ fn assign_enumeration_numbers(
         .into_iter()
         .map(|(mut e, explicit)| {
             if !explicit {
-                while explicit_in_root.contains(&next) {
+                while next < i128::MAX && explicit_in_root.contains(&next) {
                     next += 1;
                 }
                 e.index = next;
-                next += 1;
+                next = next.saturating_add(1);
             }
             e
         })
@@ -149,8 +149,8 @@ fn assign_enumeration_numbers(
             .into_iter()
             .map(|(mut e, explicit)| {
                 if !explicit {
-                    let mut candidate = previous.map_or(0, |p| (p + 1).max(0));
-                    while root.iter().any(|r| r.index == candidate) {
+                    let mut candidate = previous.map_or(0, |p| p.saturating_add(1).max(0));
+                    while candidate < i128::MAX && root.iter().any(|r| r.index == candidate) {
                         candidate += 1;
                     }
                     e.index = candidate;
